@@ -103,6 +103,8 @@ def random_configs(tier, seed):
         dict(mode="random", nsrc=3, maxbars=4, ops=40, nvals=4, runs=runs, seed=seed * 131 + 1),
         dict(mode="random", nsrc=4, maxbars=5, ops=80, nvals=3, runs=runs, seed=seed * 131 + 2),
         dict(mode="sim", hosts=3, steps=40, runs=10 if q else 60, seed=seed * 131 + 3),
+        # long bursts: 150..300 matching triggers (async + sync) queue up on one Noop barrier before the first wait
+        dict(mode="random", nsrc=3, maxbars=3, ops=30, nvals=3, burst=150, runs=4 if q else 25, seed=seed * 131 + 6),
     ]
     if not q:
         cfgs += [
